@@ -149,6 +149,14 @@ def gen_library(seed, idx):
         fname = 'foo_td%d' % ti
         hdr.add(apigen.render_function(fname, tname, [(tname, 'a')]))
         items.append(('typedef-fn', fname, tname, sp))
+    # 8. typedefs of containers, records and callbacks (aliases whose target is not a basic type) and a user of each
+    for ci, sp in enumerate(rng.sample(['GPtrArray', 'GArray', 'GByteArray', 'GList', 'GSList', 'GHashTable', 'FooRec', 'FooCallback', 'GObject',
+                                        'gchar *', 'FooMode'], rng.choice([0, 1, 2, 3]))):
+        tname = 'FooCt%d' % ci
+        hdr.add('typedef %s%s;' % (sp if sp.endswith('*') else sp + ' ', tname))
+        ptr = '' if sp in ('FooCallback', 'gchar *', 'FooMode') else ' *'
+        hdr.add(apigen.render_function('foo_ct%d' % ci, 'void', [(tname + ptr, 'a')]))
+        items.append(('other-alias', tname, sp))
     return {'items': items, 'header': hdr.text(), 'source': src.text()}
 
 
@@ -248,6 +256,12 @@ def judge(lib, gir):
                 if pnode.get('transfer-ownership') != 'none':
                     out.append(('transfer:in-param:typedef', '%s(%s): in-parameter of type %s (typedef %s) has transfer-ownership=%r' % (
                         name, pnode.get('name'), tname, sp, pnode.get('transfer-ownership'))))
+        elif kind == 'other-alias':
+            _, tname, sp = it
+            hits['other-alias'] += 1
+            classes.append('other-alias|%s' % sp)
+            if len([n for n in ns.children if n.get('c:type') == tname]) != 1:
+                out.append(('alias-missing', 'typedef %s %s: %d elements carry that c:type' % (sp, tname, len([n for n in ns.children if n.get('c:type') == tname]))))
         elif kind == 'cbs':
             _, name, params, arr, err = it
             f = funcs.get(name)
